@@ -85,6 +85,12 @@ class QExpr:
             return f'(- {self.tr(n.operand)})'
         if isinstance(n, ast.UnaryOp) and isinstance(n.op, ast.UAdd):
             return self.tr(n.operand)
+        if isinstance(n, ast.Call) and U(n.func) in ('np.add', 'np.subtract', 'np.multiply', 'np.divide', 'np.true_divide') and len(n.args) == 2 and not n.keywords:
+            op = {'add': '+', 'subtract': '-', 'multiply': '*', 'divide': '/', 'true_divide': '/'}[U(n.func)[3:]]
+            return f'({self.tr(n.args[0])} {op} {self.tr(n.args[1])})'
+        if isinstance(n, ast.Call) and U(n.func) in ('np.square',) and len(n.args) == 1 and not n.keywords:
+            a = self.tr(n.args[0])
+            return f'({a} * {a})'
         raise TranslatorError(f'unsupported expression: {U(n)[:200]}')
 
 
@@ -293,7 +299,7 @@ def kernel_part(km, out):
 
     # ================================================================= _fit_gain_offset
     f = find_func(km, 'KernelModel', '_fit_gain_offset')
-    fl = Flow(f, inline=inl)
+    fl = Flow(f, inline=inl, module=km)
     if len(fl.params) < 3:
         raise TranslatorError('_fit_gain_offset: (self, source, reference, ...) expected')
     sp, rp = fl.params[1], fl.params[2]
@@ -362,7 +368,7 @@ def kernel_part(km, out):
 
     # ================================================================= _fit_gain
     f = find_func(km, 'KernelModel', '_fit_gain')
-    fl = Flow(f, inline=inl)
+    fl = Flow(f, inline=inl, module=km)
     sp, rp = fl.params[1], fl.params[2]
     jp = joint_pred_for(sp, rp)
     ret = fl.text(the_return(f).value)
@@ -387,7 +393,7 @@ def kernel_part(km, out):
 
     # ================================================================= _r2_array
     f = find_func(km, 'KernelModel', '_r2_array')
-    fl = Flow(f, inline=inl)
+    fl = Flow(f, inline=inl, module=km)
     P = fl.params          # self, ref pixels, src pixels, parameter bands, then keywords
     if len(P) < 4:
         raise TranslatorError('_r2_array: (self, ref_array, src_array, param_array, ...) expected')
@@ -468,7 +474,7 @@ def kernel_part(km, out):
 
     # ================================================================= _fit_gain_blk_offset
     f = find_func(km, 'KernelModel', '_fit_gain_blk_offset')
-    fl = Flow(f, inline=inl)
+    fl = Flow(f, inline=inl, module=km)
     sp, rp = fl.params[1], fl.params[2]
     ret = fl.text(the_return(f).value)
     rc = ast.parse(ret, mode='eval').body
@@ -516,7 +522,7 @@ def kernel_part(km, out):
 
     # ================================================================= apply
     f = find_func(km, 'KernelModel', 'apply')
-    fl = Flow(f, inline=inl)
+    fl = Flow(f, inline=inl, module=km)
     sp, pp = fl.params[1], fl.params[2]
     ret = fl.resolve(the_return(f).value)
     if not (isinstance(ret, ast.Call) and U(ret.func) == 'RasterArray.from_profile' and len(ret.args) == 2 and U(ret.args[1]) == f'{pp}.profile'):
@@ -626,11 +632,19 @@ def compare_part(cm, out):
     out.append(f'Definition gen_cmp_returns_ok : bool := {"true" if okn else "false"}.      (* r2 = pcc ** 2, rmse, rrmse = rmse / mean(ref), n = int(N) *)')
     # ---- get_block_sums: the per-pixel term of every sum, the joint mask
     f = find_func(cm, 'RasterCompare', 'process', 'get_block_sums')
-    fl = Flow(f)
-    rt = fl.resolve(the_return(f).value)
+    fouter = find_func(cm, 'RasterCompare', 'process')
+    inl_c = generic_inliner(cm, 'RasterCompare', keep=('read', 'block_pairs', 'process', '_get_image_stats', '_get_resampling', '_assert_open'))
+    fl = Flow(f, module=cm, inline=inl_c, outer=(Flow(fouter, module=cm), f))
+    rets_ = [n for n in ast.walk(f) if isinstance(n, ast.Return) and n.value is not None]
+    vals_ = [fl.value(r_) for r_ in rets_]
+    if not vals_ or len({ast.dump(v_) for v_ in vals_}) != 1:
+        raise TranslatorError(f'get_block_sums: expected one return value, found {len(vals_)} different ones')
+    rt = vals_[0]
     if not (isinstance(rt, ast.Tuple) and len(rt.elts) == 2 and U(rt.elts[1]) == fl.params[0]):
         raise TranslatorError('get_block_sums: (sums, block pair) expected')
     sd = rt.elts[0]
+    if isinstance(sd, ast.Call) and isinstance(sd.func, ast.Name) and sd.func.id in fl.tuples and not sd.args:
+        sd = ast.Dict(keys=[ast.Constant(value=k_.arg) for k_ in sd.keywords], values=[k_.value for k_ in sd.keywords])       # a NamedTuple of the sums
     kwd = dict_items(sd)
     if kwd is None:
         raise TranslatorError('get_block_sums: sums dict')
@@ -714,7 +728,7 @@ def stats_part(sm, out):
     emit('st_inpaint_p', fl.resolve(v[0].value, v[0]))
     # ---- get_block_sums
     f = find_func(sm, 'ParamStats', 'stats', 'get_block_sums')
-    fl = Flow(f)
+    fl = Flow(f, module=sm, outer=(Flow(find_func(sm, 'ParamStats', 'stats'), module=sm), f))
     band_p, win_p = fl.params[0], fl.params[1]
     rt = the_return(f).value
     if not (isinstance(rt, ast.Tuple) and len(rt.elts) == 2 and isinstance(rt.elts[0], ast.Name) and U(rt.elts[1]) == band_p):
@@ -738,23 +752,31 @@ def stats_part(sm, out):
         arr = arr or names_.pop()
         out.append(f'Definition gen_st_term_{key} (x : Q) : Q := {QExpr(["x"]).tr(symbolise(v.func.value, [lambda n: name("x") if isinstance(n, ast.Name) and n.id == arr else None]))}.')
     okb = [U(kwd[k2]) for k2 in ('min', 'max', 'n')] == [f'{arr}.min()', f'{arr}.max()', f'{arr}.count()']
-    rd = [U(n.value) for n in ast.walk(f) if isinstance(n, (ast.Assign, ast.AnnAssign)) and n.value is not None
+    def oe(node):          # free names of the closure replaced by what they stand for in stats(); the worker's own locals stay
+        return U(Flow._res(node, fl.env0))
+    rd = [oe(n.value) for n in fl.order if isinstance(n, (ast.Assign, ast.AnnAssign)) and n.value is not None
           and U(n.target if isinstance(n, ast.AnnAssign) else n.targets[0]) == arr]
     okb = okb and len(rd) == 1 and rd[0].startswith('self._param_im.read(') and 'masked=True' in rd[0] and "out_dtype='float64'" in rd[0] \
         and f'indexes={band_p} + 1' in rd[0] and f'window={win_p}' in rd[0]
     out.append(f'Definition gen_st_block_ok : bool := {"true" if okb else "false"}.    (* masked float64 read of one band window; min, max, count of the valid values *)')
     want_inp = f'({arr} < self._r2_inpaint_thresh).sum()'
-    upd = [c for c in ast.walk(f) if isinstance(c, ast.Call) and U(c.func) == f'{bd_name}.update' and U(c) == f'{bd_name}.update(inpaint_sum={want_inp})']
-    upd += [a for a in ast.walk(f) if isinstance(a, ast.Assign) and U(a.targets[0]) == f"{bd_name}['inpaint_sum']" and U(a.value) == want_inp]
-    anyupd = [c for c in ast.walk(f) if (isinstance(c, ast.Call) and U(c.func) == f'{bd_name}.update') or
-              (isinstance(c, ast.Assign) and U(c.targets[0]).startswith(f'{bd_name}['))]
+    upd, anyupd = [], []
+    for st_ in fl.order:
+        if isinstance(st_, ast.Expr) and isinstance(st_.value, ast.Call) and U(st_.value.func) == f'{bd_name}.update':
+            anyupd.append(st_)
+            if [k_.arg for k_ in st_.value.keywords] == ['inpaint_sum'] and not st_.value.args and oe(st_.value.keywords[0].value) == want_inp:
+                upd.append(st_)
+        elif isinstance(st_, ast.Assign) and U(st_.targets[0]).startswith(f'{bd_name}['):
+            anyupd.append(st_)
+            if U(st_.targets[0]) == f"{bd_name}['inpaint_sum']" and oe(st_.value) == want_inp:
+                upd.append(st_)
     oki = len(upd) == 1 and len(anyupd) == 1
     out.append(f'Definition gen_st_inpaint_is_strictly_below : bool := {"true" if oki else "false"}.')
     okc = False
     if upd:
-        gs = fl.guards(upd[0])
-        if len(gs) == 1 and gs[0][1]:
-            tst = ast.parse(gs[0][0], mode='eval').body
+        ifs_ = [n_ for n_ in ast.walk(f) if isinstance(n_, ast.If) and any(upd[0] is m_ for b_ in n_.body for m_ in ast.walk(b_))]
+        if len(ifs_) == 1:
+            tst = Flow._res(ifs_[0].test, fl.env0)
             if isinstance(tst, ast.BoolOp) and isinstance(tst.op, ast.And):
                 parts = sorted(U(v) for v in tst.values)
                 okc = parts == sorted(['self._model == Model.gain_offset', 'self._r2_inpaint_thresh is not None', f'{band_p} >= self._param_im.count * 2 / 3'])
